@@ -719,3 +719,35 @@ def llgr_marking(c):
             c.violation("prop.llgr_marking", dict(detail, scenario=sid, ops=ops), {"spec": "Propagation (LLGR marking)", "ops": ops, "scenario": sid})
     c.cov["evaluations"] += len(seqs)
     c.cov["parts"]["llgr_marking"] = {"histories": len(seqs)}
+
+
+def rtr_operator_ends(c):
+    """C13: a session the OPERATOR ends (DisableRpki, DeleteRpki, hard ResetRpki on the real GrpcService, with the real
+    try_connect task) loses its VRPs like any other.  Each kind is repeated: which branch of the cancelled task is polled first
+    is random."""
+    n = 24 if c.tier == "thorough" else 12
+    inp = os.path.join(vf.WORK, "C13.rtrapi.in")
+    outp = os.path.join(vf.WORK, "C13.rtrapi.out")
+    with open(inp, "w") as f:
+        for op in ("disable", "delete", "reset"):
+            f.write(f"{op} {n}\n")
+    if os.path.exists(outp):
+        os.remove(outp)
+    rc, out = vf.daemon_test("event::verif_harness::rtr_api_replay", env={"VERIF_IN": inp, "VERIF_OUT": outp}, timeout=1500)
+    if rc != 0 or not os.path.exists(outp):
+        raise vf.ToolError(f"rtr_api_replay failed rc={rc}:\n{out[-3000:]}")
+    res = vf.read_jsonl(outp)
+    if len(res) != 3 * n:
+        raise vf.ToolError(f"rtr_api_replay: {len(res)} results for {3 * n} runs")
+    seen = set()
+    for j in res:
+        if not j["installed"]:
+            raise vf.ToolError(f"rtr_api_replay: the scripted cache's VRP was never installed ({j})")
+        if not j["gone"] and j["op"] not in seen:
+            seen.add(j["op"])
+            left = sum(1 for x in res if x["op"] == j["op"] and not x["gone"])
+            c.violation("rtr.operator_end", {"op": j["op"], "runs": n, "runs_in_which_the_VRPs_stayed": left,
+                                             "why": "the cache's session was ended through the API and its VRPs are still installed"},
+                        {"spec": "RtrClient (end of session ordered by the operator)", "op": j["op"], "runs": n})
+    c.cov["evaluations"] += len(res)
+    c.cov["parts"]["operator_ends"] = {"runs": len(res)}
